@@ -35,6 +35,17 @@ var lifeMenus = [][]string{
 	{c1, c2},
 	{c1, c2, cNever},
 	{c1, cOld, cNever},
+	// chain type spellings ("ref:TYPE"; plain = "evm"): the type is free text
+	{c1 + ":EVM", c2, cOld},
+	{c1 + ":Evm", c2 + ":EVM", cOld, cNew + ":EVM"},
+	{c1 + ":solana", c2, cOld},
+}
+
+func splitAcct(x string) (ref, typ string) {
+	if i := strings.Index(x, ":"); i >= 0 {
+		return x[:i], x[i+1:]
+	}
+	return x, "evm"
 }
 
 func (e *env) govAddChain(ctx sdk.Context, ref string) error {
@@ -57,8 +68,9 @@ func (e *env) govRemoveChain(ctx sdk.Context, ref string) error {
 func (e *env) txSetAccounts(ctx sdk.Context, v int, chains []string) (bool, *explore.Fail) {
 	a := e.w.Vals[v]
 	var infos []*vtypes.ExternalChainInfo
-	for _, ref := range chains {
-		infos = append(infos, &vtypes.ExternalChainInfo{ChainType: "evm", ChainReferenceID: ref, Address: a.EthAddr(),
+	for _, x := range chains {
+		ref, typ := splitAcct(x)
+		infos = append(infos, &vtypes.ExternalChainInfo{ChainType: typ, ChainReferenceID: ref, Address: a.EthAddr(),
 			Pubkey: ethcrypto.PubkeyToAddress(a.Eth.PublicKey).Bytes()})
 	}
 	res := e.w.DeliverTx(ctx, []*world.Actor{a.Actor}, &vtypes.MsgAddExternalChainInfoForValidator{ChainInfos: infos, Metadata: world.Meta(a.Actor)})
@@ -73,7 +85,11 @@ func (g *ghost) accountsOf(v int) []string {
 	pre := fmt.Sprintf("%d/", v)
 	for k, on := range g.Acct {
 		if on && strings.HasPrefix(k, pre) {
-			out = append(out, k[len(pre):])
+			x := k[len(pre):]
+			if t := g.Typ[k]; t != "" {
+				x += ":" + t
+			}
+			out = append(out, x)
 		}
 	}
 	sort.Strings(out)
@@ -155,11 +171,21 @@ func (e *env) lifeOps(n *explore.Node) []explore.Op {
 					e.count("n_account_refused") // jailed / not bonded
 					return nil, nil
 				}
-				for _, c := range g.accountsOf(v) {
+				for _, x := range g.accountsOf(v) {
+					c, _ := splitAcct(x)
 					delete(g.Acct, acctKey(v, c))
+					delete(g.Typ, acctKey(v, c))
 				}
-				for _, c := range menu {
+				for _, x := range menu {
+					c, t := splitAcct(x)
 					g.Acct[acctKey(v, c)] = true
+					if t != "evm" {
+						if g.Typ == nil {
+							g.Typ = map[string]string{}
+						}
+						g.Typ[acctKey(v, c)] = t
+						e.count("n_accounts_registered_with_type_" + t)
+					}
 				}
 				e.count("n_account_lists_replaced")
 				return nil, nil
